@@ -335,7 +335,7 @@ class Spec:
 # The merge map of the library is not shifted by structural edits (known finding C12-merge-map-not-shifted);
 # histories containing a structural edit at an index <= the last row/column of an existing rectangle are
 # classed "tainted". Set to False once the library shifts its merge map.
-TAINT_ON_SHIFT = True
+TAINT_ON_SHIFT = False
 
 SPECS = {"full": Spec(pairs_at_root=True), "nopairs": Spec(pairs_at_root=False)}
 
